@@ -25,10 +25,10 @@ CLAIMED = {
          "Classes derived per run black-box; tiny tables dominate (2-8 buckets) with 10% realistic sizes; S1L adds tables up to 2^17 buckets, buckets of 255..512 slots and 48..64-bit fingerprints with an exact key-level model."),
 
  "C05": ("exploration", "batches of sampler runs over SimRng seeds per (k, n) cell; inclusion counts of every stream position and of regions tested against k/n at z = 6 with the documented-approximation allowance beyond n = 4k+1",
-         "The probability in the statement is over the injected RNG, which the simulator owns: per (k, n) cell 2*10^5 (k<=16) or 2*10^4 (k=64) sampler runs with distinct RNG streams; exact test while n <= 4k+1, calibrated allowance (1+ln(n/4k))/k beyond (a textbook implementation uses about half of it).",
+         "The probability in the statement is over the injected RNG, which the simulator owns: per (k, n) cell 2*10^5 (k<=16) or 2*10^4 (k=64) sampler runs with distinct RNG streams; exact test while n <= 4k+1, calibrated allowance (1+ln(n/4k))/k beyond (a textbook implementation uses about half of it). Beyond the (k, n) grid: cells on samplers that were used and cleared before, cells with n = 2^27 / 2^28, cells fed through Extend in batches with lazily sized iterators.",
          "Statistical acceptance; binomial standard error is conservative because inclusions within a run are negatively correlated; SimRng's SplitMix stream is assumed to be a good uniform source."),
  "C18": ("exploration", "seeded simulation with a tape of extreme RNG words (0, u64::MAX, 1<<63, ...) at a random 0-30% of draw positions; structural invariants after every add",
-         "Arbitrary RNG output is the fault: the invariants (len = min(n,k), items are distinct stream positions, prefix order until k, i(), is_empty, no panic) are checked after every add across and on the phase boundaries, with clear() restarts.",
+         "Arbitrary RNG output is the fault: the invariants (len = min(n,k), items are distinct stream positions, prefix order until k, i(), is_empty, no panic) are checked after every add across and on the phase boundaries, with clear() restarts, items delivered through Extend with iterators whose size hints are missing or loose, and clone_from as state transfer onto a sampler of another k.",
          "k <= 64 mostly, occasionally 1000 and 10^5; n <= 6*10^4."),
  "C04": ("exploration", "seeded simulation of the compaction schedule (backlog knob 0..n+1, reads injected between inserts) over 14 arrival patterns; exact sorted multiset as reference; rank error of quantile/cdf against c*W+2/n and centroid count against delta+3",
          "The statement quantifies over insertion order and over which inserts are compacted together; the simulator owns both (arrival pattern, backlog size, read positions) and checks the exact-multiset oracle at check points and at the end.",
@@ -38,7 +38,7 @@ CLAIMED = {
          "Tolerances as granted by the statement (8 ulp * kappa); consistency check skipped when kappa makes it meaningless (counted by a probe)."),
  "C16": ("exploration", "seeded simulation of insert/insert_weighted histories with every compaction schedule; conservation of count/sum/mean/min/max/is_empty against running totals at every read",
          "Conservation invariant under every compaction schedule the backlog knob and read positions produce; weights across 12 orders of magnitude, zero weights, deltas from 1.1 (total fusion) to 1000.",
-         "Relative 1e-9 accumulation tolerance scaled by sum |x| w."),
+         "Relative 1e-9 accumulation tolerance scaled by sum |x| w; count / sum / mean are each read first in turn, so that each has to flush pending inserts itself."),
  "C09": ("exploration", "seeded streams aimed at the pruning tick (an element re-appears on the add right after it was pruned; counts equal to the window number), black-box oracles for no-miss / no-intruder / add return value / table bound at every prefix",
          "Refinement of the stated guarantees over generated streams; the only schedule-like choice is where occurrences fall relative to the pruning tick every width adds, which two of the seven stream shapes target and a probe counts.",
          "Threshold comparisons carry a 1e-9*n guard band on the lenient side; long streams are checked at tick-adjacent and every 17th prefix instead of all."),
@@ -55,13 +55,13 @@ CLAIMED = {
          "The multi-party property: after every successful delivery the receiver is observationally equal to a fresh instance of the same configuration fed the receiver's logical content (cuckoo: equal to the class multiset), the shipped snapshot is unchanged, a Full union leaves the receiver unchanged; commutativity / associativity / idempotence are probed on clones; after faults stop all nodes converge.",
          "Observational equality is over the run's key universe (<= 40 keys incl. never-ingested probes) plus len / count / registers / is_empty; S1L adds unions of large filters (one-cluster operands, >2^16 slots / buckets, operands with holes) against an exact key-level model."),
  "C17": ("exploration", "at-least-once stream transport simulation: the same multiset of hashes (boundary catalogue) is delivered to 2-4 HyperLogLog nodes in different orders and multiplicities through add_hashed and add (Identity / Sip / masked hashers); registers compared with the rule of the statement after every add",
-         "Permutation and repetition of adds are what a reordering, duplicating transport produces; all nodes must agree and every touched register must equal the statement's rule (max over addressed hashes of the first-set-bit position), add must equal add_hashed(hash_one), reconstruction from registers must be equal.",
+         "Permutation and repetition of adds are what a reordering, duplicating transport produces; all nodes must agree and every touched register must equal the statement's rule (max over addressed hashes of the first-set-bit position), add must equal add_hashed(hash_one), reconstruction from registers must be equal; between deliveries, events that must not change a register (rejected merges with a sketch of another hasher or precision, merges with an empty sketch or a clone, work on a clone); Extend by value and by reference (str / [u8] slices of one buffer) against add.",
          "All 15 precisions, <= 600 items per run."),
  "C19": ("exploration", "restart / fork simulation for all nine structures: seeded prefix (with failed inserts), clear(), continuation applied in lock-step to a fresh instance whose injected RNG stream is aligned to the cleared instance's position; clones taken at a seeded instant, mutated in both directions",
          "clear() is a restart that keeps only the configuration and clone() a fork at an arbitrary instant; the instant and (cuckoo, reservoir) the alignment of the RNG stream are the simulator's choices. After clear() and after every continuation step both instances must give identical operation results and identical answers on the structure's full observer set; is_empty() is compared with the number of successful additions.",
          "Observer sets: filters query over <= 32 keys + len + is_empty; CMS query_point; HLL registers/count; T-Digest n_centroids, 33 quantiles, 33 cdf values, aggregates (bit-exact); reservoir contents; LossyCounter n and three sorted queries; CMSHeap sorted iter."),
  "C11": ("exploration", "allocator seam: a counting global allocator attributes live heap bytes to the structure while seeded workloads (including failed inserts and clear()) run; bound F*documented+512 B at every decade of stream length, no-growth test across decades, zero after drop",
-         "Resource accounting through the allocator the simulator owns: live bytes are read after construction, at 10^2..10^5 (thorough 10^6) elements, after failed inserts, after clear() and after drop, over a grid of configurations (fingerprint / remainder widths 2..64).",
+         "Resource accounting through the allocator the simulator owns: live bytes are read after construction, at 10^2..10^5 (thorough 10^6) elements, after failed inserts, after clear() and after drop, over a grid of configurations (fingerprint / remainder widths 2..64); streams are i.i.d. or periodic (aligned with the LossyCounter window), element by element, in Extend chunks, or with a read after every n-th insert.",
          "Constant factors 1.5 (bit-packed tables) / 4 (Vec, HashMap, BTreeSet backed) plus 512 B; the no-growth test (a decade more data, at most twice the memory) is independent of them; LossyCounter is checked against its documented O(width * (H(n/width)+1)) entries only."),
 }
 
